@@ -30,8 +30,21 @@ COMBOS = [(e, b) for e in ENVS for b in BACKENDS]   # 33; unsupported ones are
 # counted as `unsupported_by_design`
 
 
+# held-corner sweeps: every member holds its own extreme corner of the action
+# box for the whole history (64 sign patterns x 96 steps) on the models with
+# the most actuators. Added after seeded change c16-03 (Newton-Schulz
+# acceptance test dropped), which needs ~10 % of the sign patterns of
+# humanoidstandup/generalized and was reached by the thorough tier only.
+SWEEPS = [('humanoidstandup', 'generalized'), ('humanoid', 'generalized')]
+
+
 def plan(prop, tier):
-  return len(COMBOS) * (1 if tier == 'quick' else 4)
+  return len(COMBOS) * (1 if tier == 'quick' else 4) + len(SWEEPS)
+
+
+def _sweep(prop, tier, run):
+  i = run - len(COMBOS) * (1 if tier == 'quick' else 4)
+  return SWEEPS[i] if i >= 0 else None
 
 
 def worker_class(prop, tier, run):
@@ -50,7 +63,7 @@ def worker_timeout(prop, tier):
 
 
 def cost(prop, tier, run):
-  e, b = COMBOS[run % len(COMBOS)]
+  e, b = _sweep(prop, tier, run) or COMBOS[run % len(COMBOS)]
   return COST[e] * (2 if b == 'generalized' else 1)
 
 
@@ -96,6 +109,13 @@ def evidence_info(prop, tier):
 
 def generate(prop, tier, seed, run):
   r = core.run_rng(seed, ENGINE, run)
+  sw = _sweep(prop, tier, run)
+  if sw:
+    return {'env': sw[0], 'backend': sw[1], 'B': 64, 'T': 96, 'L': 200,
+            'kind': 'held', 'hold': 5,
+            'reset_seed': r.randint(0, 2**31 - 1),
+            'act_seed': r.randint(0, 2**31 - 1),
+            'x64': worker_class(prop, tier, run)['x64']}
   env, backend = COMBOS[run % len(COMBOS)]
   rep = run // len(COMBOS)
   kind = KINDS[(run + rep + seed) % len(KINDS)]
@@ -116,6 +136,8 @@ def generate(prop, tier, seed, run):
 def member_kinds(g):
   """Every batch member follows its own schedule kind (rotating through all
   kinds, starting at the run's kind); the last member duplicates member 0."""
+  if g['kind'] == 'held':      # held-corner sweep
+    return ['held'] * g['B']
   k0 = KINDS.index(g['kind'])
   kinds = [MEMBER_KINDS[(k0 + b) % len(MEMBER_KINDS)] for b in range(g['B'])]
   if g['B'] > 1:
